@@ -51,6 +51,8 @@ type oresp struct {
 	Cuts     []int    // the wire bytes are written in pieces cut at these offsets (sorted)
 	GapMs    int      // pause between the pieces (0 = none); used by the timing scenarios
 	KeepOpen bool     // origin keeps its connection open after this response (false: closes when Framing == "close")
+	Raw      []string // timing scenarios: the exact pieces the origin writes, GapMs apart (overrides everything else)
+	RawClose bool     // close the origin connection after the raw pieces
 }
 
 type xreq struct {
@@ -154,6 +156,25 @@ func (o *originSrv) serve(c net.Conn) {
 			c.Write([]byte("HTTP/1.1 500 no script\r\nContent-Length: 0\r\n\r\n"))
 			continue
 		}
+		if len(r.Raw) > 0 {
+			var times []time.Time
+			for i, piece := range r.Raw {
+				if i > 0 && r.GapMs > 0 {
+					time.Sleep(time.Duration(r.GapMs) * time.Millisecond)
+				}
+				times = append(times, time.Now())
+				if _, err := c.Write([]byte(piece)); err != nil {
+					break
+				}
+			}
+			o.mu.Lock()
+			o.sent[path] = times
+			o.mu.Unlock()
+			if r.RawClose {
+				return
+			}
+			continue
+		}
 		data := o.wire(r, strings.Contains(req.Header.Get("Accept-Encoding"), "gzip"))
 		prev := 0
 		var times []time.Time
@@ -219,9 +240,10 @@ type proxyRig struct {
 	stop  context.CancelFunc
 }
 
-func newProxyRig() *proxyRig {
+func newProxyRig(handler bool) *proxyRig {
 	rig := &proxyRig{snaps: map[string]snapshot{}}
 	cfg := forwarder.DefaultHTTPProxyConfig()
+	cfg.TestingHTTPHandler = handler
 	cfg.Address = "127.0.0.1:0"
 	cfg.ProxyLocalhost = forwarder.AllowProxyLocalhost
 	cfg.LogHTTPMode = httplog.None
@@ -486,9 +508,18 @@ func runConn(proxyAddr, origin string, paths []string, c ecaseJ, wait time.Durat
 			break
 		}
 	}
-	// anything that still arrives (bytes that belong to no response, or the close)
+	// anything that still arrives (bytes that belong to no response, or the close); when the last
+	// response announced "Connection: close" the close is awaited longer (a loaded machine may delay it)
 	if !eof {
-		for read(120 * time.Millisecond) {
+		grace := 120 * time.Millisecond
+		if len(res.Parsed) > 0 {
+			for _, v := range fieldVals(res.Parsed[len(res.Parsed)-1].Fields, "Connection") {
+				if strings.Contains(strings.ToLower(v), "close") {
+					grace = 2 * time.Second
+				}
+			}
+		}
+		for !eof && read(grace) {
 		}
 	}
 	res.Closed = eof
@@ -832,7 +863,7 @@ type e2eOut struct {
 func runCases(cases []ecaseJ, wait time.Duration) (rendered []string, outs []any, stats map[string]int) {
 	org := newOrigin()
 	defer org.l.Close()
-	rig := newProxyRig()
+	rig := newProxyRig(false)
 	defer rig.stop()
 	origin := org.l.Addr().String()
 	stats = map[string]int{}
@@ -905,7 +936,7 @@ func runE2E(r *rng.R, thorough bool, ss *shardSet, m *meta, out string) {
 	for i := 0; i < n; i++ {
 		cases = append(cases, genCase(r))
 	}
-	rendered, outs, stats := runCases(cases, 700*time.Millisecond)
+	rendered, outs, stats := runCases(cases, 2500*time.Millisecond)
 	m.Counts["ecases"] = len(rendered)
 	m.E2E["stats"] = stats
 	old := ss.shardSize
@@ -914,9 +945,22 @@ func runE2E(r *rng.R, thorough bool, ss *shardSet, m *meta, out string) {
 	ss.shardSize = old
 	writeJSONL(out, "ecases.jsonl", outs)
 	m.Samples["ecase"] = outs[len(outs)-1]
+	runTimingPart(thorough, ss, m, out)
 }
 
 func replayE2E(kind string, raw json.RawMessage, ss *shardSet, m *meta) {
+	if kind == "tcases" {
+		var sc tscen
+		if err := json.Unmarshal(raw, &sc); err != nil {
+			panic(err)
+		}
+		rendered, outs, slack := runTiming([]tscen{sc})
+		m.Counts["tcases"] = 1
+		m.E2E["timing"] = map[string]any{"min_slack_us": slack}
+		ss.write("tcases", "tcase", "(fun _ : tcase => true)", "tcase_prop_ok", rendered)
+		writeJSONL(ss.dir, "tcases.jsonl", outs)
+		return
+	}
 	if kind != "ecases" {
 		return
 	}
@@ -924,9 +968,268 @@ func replayE2E(kind string, raw json.RawMessage, ss *shardSet, m *meta) {
 	if err := json.Unmarshal(raw, &c); err != nil {
 		panic(err)
 	}
-	rendered, outs, stats := runCases([]ecaseJ{c}, 700*time.Millisecond)
+	rendered, outs, stats := runCases([]ecaseJ{c}, 2500*time.Millisecond)
 	m.Counts["ecases"] = 1
 	m.E2E["stats"] = stats
 	ss.write("ecases", "ecase", "ecase_model_ok", "ecase_prop_ok", rendered)
 	writeJSONL(ss.dir, "ecases.jsonl", outs)
+}
+
+
+// ---------------------------------------------------------------- timing scenarios (tcases)
+type tscen struct {
+	Class   string   // input class
+	Handler bool     // through the http.Handler variant of the proxy (TestingHTTPHandler)
+	Req     xreq     //
+	Pieces  []string // raw pieces the origin writes, GapMs apart; Pieces[0] is the head
+	BodyEnd []int    // per piece: length of the decoded body that must be visible at the client before the next piece is sent (-1: no requirement)
+	GapMs   int
+	Close   bool // origin closes after the last piece (close-delimited)
+}
+
+// partialBody returns the decoded body bytes available in a (possibly incomplete) response.
+func partialBody(v11 bool, b []byte) []byte {
+	i := bytes.Index(b, []byte("\r\n\r\n"))
+	if i < 0 {
+		return nil
+	}
+	head, rest := b[:i+2], b[i+4:]
+	chunked := false
+	for _, line := range strings.Split(string(head), "\r\n") {
+		k, v, ok := strings.Cut(line, ":")
+		if ok && strings.EqualFold(k, "Transfer-Encoding") && strings.Contains(strings.ToLower(v), "chunked") {
+			chunked = v11
+		}
+	}
+	if !chunked {
+		return rest
+	}
+	var body []byte
+	for {
+		l, r, ok := cutLine(rest)
+		if !ok {
+			return body
+		}
+		szs, _, _ := strings.Cut(string(l), ";")
+		sz, err := strconv.ParseUint(strings.TrimSpace(szs), 16, 32)
+		if err != nil || sz == 0 {
+			return body
+		}
+		if uint64(len(r)) <= sz {
+			return append(body, r...)
+		}
+		body = append(body, r[:sz]...)
+		rest = r[sz:]
+		if len(rest) < 2 {
+			return body
+		}
+		rest = rest[2:]
+	}
+}
+
+func sseScen(class string, term string, framing string, handler bool, req xreq, gap int) tscen {
+	sc := tscen{Class: class, Handler: handler, Req: req, GapMs: gap}
+	evs := []string{"data: e1" + term, ": comment" + term[:len(term)/2] + "data: e2" + term, "data: e3" + term}
+	switch framing {
+	case "chunked":
+		sc.Pieces = []string{"HTTP/1.1 200 OK\r\nContent-Type: text/event-stream\r\nTransfer-Encoding: chunked\r\n\r\n"}
+		sc.BodyEnd = []int{-1}
+		n := 0
+		for _, e := range evs {
+			sc.Pieces = append(sc.Pieces, fmt.Sprintf("%x\r\n%s\r\n", len(e), e))
+			n += len(e)
+			sc.BodyEnd = append(sc.BodyEnd, n)
+		}
+		sc.Pieces = append(sc.Pieces, "0\r\n\r\n")
+		sc.BodyEnd = append(sc.BodyEnd, -1)
+	default: // close-delimited
+		sc.Close = true
+		sc.Pieces = []string{"HTTP/1.1 200 OK\r\nContent-Type: text/event-stream\r\n\r\n"}
+		sc.BodyEnd = []int{-1}
+		n := 0
+		for _, e := range evs {
+			sc.Pieces = append(sc.Pieces, e)
+			n += len(e)
+			sc.BodyEnd = append(sc.BodyEnd, n)
+		}
+	}
+	return sc
+}
+
+func timingScenarios(gap int) []tscen {
+	g11 := xreq{Method: "GET", Proto: "HTTP/1.1"}
+	g10 := xreq{Method: "GET", Proto: "HTTP/1.0"}
+	var out []tscen
+	for _, handler := range []bool{false, true} {
+		pre := ""
+		if handler {
+			pre = "handler-"
+		}
+		for _, t := range []struct{ n, term string }{{"lf", "\n\n"}, {"cr", "\r\r"}, {"crlf", "\r\n\r\n"}} {
+			out = append(out, sseScen(pre+"sse-chunked-"+t.n, t.term, "chunked", handler, g11, gap))
+			out = append(out, sseScen(pre+"sse-close-delimited-"+t.n, t.term, "close", handler, g11, gap))
+		}
+		out = append(out, sseScen(pre+"sse-chunked-lf-http10-client", "\n\n", "chunked", handler, g10, gap))
+		// terminator split over two origin writes (close-delimited): complete only with the second
+		out = append(out, tscen{Class: pre + "sse-close-delimited-terminator-straddles-writes", Handler: handler, Req: g11, GapMs: gap, Close: true,
+			Pieces:  []string{"HTTP/1.1 200 OK\r\nContent-Type: text/event-stream\r\n\r\n", "data: e1\r\n\r", "\ndata: e2\n", "\ndata: e3\n\n"},
+			BodyEnd: []int{-1, -1, 13, -1}})
+		// event split over two chunks: every chunk the origin sent must be delivered
+		out = append(out, tscen{Class: pre + "sse-chunked-event-split-over-chunks", Handler: handler, Req: g11, GapMs: gap,
+			Pieces:  []string{"HTTP/1.1 200 OK\r\nContent-Type: text/event-stream\r\nTransfer-Encoding: chunked\r\n\r\n", "9\r\ndata: e1\n\r\n", "1\r\n\n\r\n", "a\r\ndata: e2\n\n\r\n", "0\r\n\r\n"},
+			BodyEnd: []int{-1, 9, 10, 20, -1}})
+		// plain chunked body: every chunk delivered before the next is sent
+		out = append(out, tscen{Class: pre + "chunked-body-chunk-by-chunk", Handler: handler, Req: g11, GapMs: gap,
+			Pieces:  []string{"HTTP/1.1 200 OK\r\nContent-Type: text/plain\r\nTransfer-Encoding: chunked\r\n\r\n", "5\r\nhello\r\n", "6\r\n world\r\n", "1\r\n!\r\n", "0\r\n\r\n"},
+			BodyEnd: []int{-1, 5, 11, 12, -1}})
+	}
+	return out
+}
+
+type tcheck struct {
+	Piece     int   `json:"piece"`
+	VisibleUs int64 `json:"visible_us"`   // when the required body prefix was visible at the client (-1: never)
+	NextUs    int64 `json:"next_sent_us"` // when the origin wrote the next piece
+}
+
+type tOut struct {
+	Case   tscen    `json:"case"`
+	Checks []tcheck `json:"checks"`
+}
+
+func runTiming(scens []tscen) (rendered []string, outs []any, minSlackUs int64) {
+	org := newOrigin()
+	defer org.l.Close()
+	rigs := map[bool]*proxyRig{false: newProxyRig(false), true: newProxyRig(true)}
+	defer rigs[false].stop()
+	defer rigs[true].stop()
+	origin := org.l.Addr().String()
+	rendered = make([]string, len(scens))
+	outs = make([]any, len(scens))
+	minSlackUs = 1 << 60
+	var mu sync.Mutex
+	var wg sync.WaitGroup
+	for si := range scens {
+		wg.Add(1)
+		go func(si int) {
+			defer wg.Done()
+			sc := scens[si]
+			path := fmt.Sprintf("/t%d", si)
+			org.mu.Lock()
+			org.scripts[path] = &oresp{Raw: sc.Pieces, GapMs: sc.GapMs, RawClose: sc.Close}
+			org.mu.Unlock()
+			start := time.Now()
+			conn, err := net.Dial("tcp", rigs[sc.Handler].addr)
+			if err != nil {
+				panic(err)
+			}
+			defer conn.Close()
+			conn.Write(renderReq(sc.Req, origin, path))
+			var stream []byte
+			var arr []arrival
+			buf := make([]byte, 64*1024)
+			deadline := time.Now().Add(time.Duration(sc.GapMs*(len(sc.Pieces)+3)) * time.Millisecond)
+			v11 := sc.Req.Proto == "HTTP/1.1"
+			for {
+				conn.SetReadDeadline(deadline)
+				n, err := conn.Read(buf)
+				if n > 0 {
+					stream = append(stream, buf[:n]...)
+					arr = append(arr, arrival{len(stream), time.Now()})
+				}
+				if err != nil {
+					break
+				}
+				if _, _, perr := parseResp(v11, sc.Req.Method, stream, false); perr == nil {
+					break
+				}
+			}
+			org.mu.Lock()
+			sent := append([]time.Time(nil), org.sent[path]...)
+			org.mu.Unlock()
+			var checks []tcheck
+			for i, need := range sc.BodyEnd {
+				if need < 0 || i+1 >= len(sent) {
+					continue
+				}
+				vis := int64(-1)
+				for _, a := range arr {
+					if len(partialBody(v11, stream[:a.N])) >= need {
+						vis = a.T.Sub(start).Microseconds()
+						break
+					}
+				}
+				checks = append(checks, tcheck{i, vis, sent[i+1].Sub(start).Microseconds()})
+			}
+			var parts []string
+			mu.Lock()
+			for _, c := range checks {
+				v := c.VisibleUs
+				if v < 0 {
+					v = 1 << 50
+				}
+				parts = append(parts, fmt.Sprintf("(%s, %s)", coqfmt.Z(v), coqfmt.Z(c.NextUs)))
+				if c.VisibleUs >= 0 && c.NextUs-c.VisibleUs < minSlackUs {
+					minSlackUs = c.NextUs - c.VisibleUs
+				}
+			}
+			mu.Unlock()
+			rendered[si] = fmt.Sprintf("{| t_checks := %s; t_expected := %d |}", coqfmt.List("(Z * Z)", parts), countReq(sc.BodyEnd, len(sc.Pieces)))
+			outs[si] = tOut{sc, checks}
+		}(si)
+	}
+	wg.Wait()
+	return
+}
+
+func countReq(ends []int, pieces int) int {
+	n := 0
+	for i, e := range ends {
+		if e >= 0 && i+1 < pieces {
+			n++
+		}
+	}
+	return n
+}
+
+func runTimingPart(thorough bool, ss *shardSet, m *meta, out string) {
+	gap := 250
+	if thorough {
+		gap = 600
+	}
+	scens := timingScenarios(gap)
+	rendered, outs, slack := runTiming(scens)
+	// a delivery that really waits for later bytes is late on every attempt; scheduling noise on a
+	// loaded machine is not: scenarios that were late are repeated (at most twice) and the last attempt counts
+	retried := 0
+	for attempt := 0; attempt < 2; attempt++ {
+		var again []int
+		for i, o := range outs {
+			for _, c := range o.(tOut).Checks {
+				if c.VisibleUs < 0 || c.VisibleUs >= c.NextUs {
+					again = append(again, i)
+					break
+				}
+			}
+		}
+		if len(again) == 0 {
+			break
+		}
+		sub := make([]tscen, len(again))
+		for k, i := range again {
+			sub[k] = scens[i]
+		}
+		r2, o2, _ := runTiming(sub)
+		for k, i := range again {
+			rendered[i], outs[i] = r2[k], o2[k]
+			retried++
+		}
+	}
+	m.E2E["timing_retries"] = retried
+	m.Counts["tcases"] = len(rendered)
+	m.E2E["timing"] = map[string]any{"gap_ms": gap, "scenarios": len(scens), "min_slack_us": slack,
+		"tolerance": fmt.Sprintf("a completed event/chunk must be visible at the raw client before the origin writes the next piece, %d ms later", gap)}
+	ss.write("tcases", "tcase", "(fun _ : tcase => true)", "tcase_prop_ok", rendered)
+	writeJSONL(out, "tcases.jsonl", outs)
+	m.Samples["tcase"] = outs[0]
 }
